@@ -77,6 +77,30 @@ func H02g_EmptyPoolTrustsNothing() {
 }
 func H02e_4blocks()          { h02(4, 1) }
 
+// H02h: histories. After a quote was accepted under one pool, the same quote presented with
+// fresh options and ANOTHER pool is judged against that other pool.
+func H02h_SecondVerificationOtherRoots() {
+	w := mkPKI(1, nil)
+	quote := mkQuote(w, 0)
+	now := symTimeSet("t")
+	if TdxQuote(quote, &Options{TrustedRoots: w.pool, Now: now}) != nil {
+		return
+	}
+	vp.Reach("first-accepted", true)
+	other := mkCert("othertrusted")
+	pool2 := m_NewCertPool()
+	m_AddCert(pool2, other)
+	now2 := symTimeSet("t2")
+	err := TdxQuote(quote, &Options{TrustedRoots: pool2, Now: now2})
+	vp.Reach("second-rejected", err != nil)
+	vp.Assert("second-verification-is-anchored-in-its-own-pool", vp.Implies(err == nil,
+		verifyModel(w.leaf, []*x509.Certificate{other}, []*x509.Certificate{w.inter}, now2.PckCertChain)))
+	// and with no pool: the embedded root
+	err3 := TdxQuote(quote, &Options{Now: now2})
+	vp.Assert("third-verification-is-anchored-in-the-embedded-root", vp.Implies(err3 == nil,
+		verifyModel(w.leaf, []*x509.Certificate{w.embedded}, []*x509.Certificate{w.inter}, now2.PckCertChain)))
+}
+
 // ---- root-of-trust configuration ----
 
 var files map[string][]byte
@@ -92,6 +116,20 @@ func m_ReadFile(name string) ([]byte, error) {
 		return nil, errors.New("open: no such file")
 	}
 	return b, nil
+}
+
+// inlineBundle: an inline PEM bundle as a concrete string (possibly blank) that carries its certificates.
+func inlineBundle(p string, n int, blank int) (string, []*x509.Certificate) {
+	text := []string{"-----BEGIN CERTIFICATE-----" + p, "", "  \n"}[blank]
+	var cs []*x509.Certificate
+	if blank == 0 {
+		for i := 0; i < n; i++ {
+			cs = append(cs, mkCert(p+"_c"+string(rune('0'+i))))
+		}
+	}
+	s := text + ""
+	vp.GhostSet(s, "bundle", &bundleGhost{certs: cs})
+	return s, cs
 }
 
 func bundle(p string, n int) ([]byte, []*x509.Certificate) {
@@ -132,12 +170,12 @@ func H02f_RootOfTrustToOptions() {
 	}
 	for i := 0; i < nInline; i++ {
 		k := vp.Choose("inlineCerts"+string(rune('0'+i)), 3)
-		b, cs := bundle("inline"+string(rune('0'+i)), k)
-		if k == 0 {
+		blank := vp.Choose("inlineBlank"+string(rune('0'+i)), 3) // real PEM text, empty string, white space only
+		s, cs := inlineBundle("inline"+string(rune('0'+i)), k, blank)
+		if len(cs) == 0 {
 			anyEmpty = true
 		}
 		listed = append(listed, cs...)
-		s := string(b)
 		rot.Cabundles = append(rot.Cabundles, s)
 	}
 	opts, err := RootOfTrustToOptions(rot)
